@@ -2,8 +2,8 @@
 MiniGo — the core of the neo-go compiler dialect that is modelled in Lean (C14).  Core Lean only.
 
 Typed-by-construction AST (ints and bools, locals and arguments, arithmetic / comparison / logic,
-assignment forms, if/else-if/else, three-clause and condition-only `for`, break/continue, calls with
-at most one result, recursion) and a fuel-indexed big-step semantics that is the *Go* semantics of the
+assignment forms, if/else-if/else, three-clause and condition-only `for`, labeled break/continue, `switch`, calls
+of functions with zero, one or two results, recursion) and a fuel-indexed big-step semantics that is the *Go* semantics of the
 program: `int` is 64-bit, and an arithmetic result outside the 64-bit range is reported as `overflow`
 (the side condition of property C14), division by zero is `panic`.
 
@@ -55,6 +55,8 @@ inductive Stmt
   | ite (c : Expr) (thn : Stmt) (k : ElseKind) (els : Stmt)
   | loop (init : Stmt) (cond : Option Expr) (post : Stmt) (body : Stmt)
   | ret (e : Option Expr)
+  | ret2 (e1 e2 : Expr)                                -- return e1, e2
+  | define2 (x y : String) (e : Expr)                  -- x, y := f(…)   (e is a call of a two-result function)
   | brk
   | cont
   | block (body : Stmt)
@@ -73,7 +75,7 @@ inductive Stmt
 structure FuncDecl where
   name : String
   params : List String
-  hasResult : Bool
+  nres : Nat                 -- number of results: 0, 1 or 2
   body : Stmt
   deriving Repr
 
@@ -174,7 +176,7 @@ inductive SOut
   | norm (env : Env)
   | brk (l : Option String) (env : Env)      -- `break` / `break L` on its way to the statement it leaves
   | cont (l : Option String) (env : Env)
-  | ret (v : Option Val)
+  | ret (vs : List Val)                      -- `return` with the values of its operands, first operand first
   deriving Repr
 
 /-- the comparison a `switch` makes between its tag and a case expression. -/
@@ -182,6 +184,12 @@ def eqOp (tagInt : Bool) : BinOp := if tagInt then .eq else .eqb
 
 /-- an unlabeled `break`/`continue`, or one that names this statement. -/
 def mine (l lbl : Option String) : Bool := l == none || l == lbl
+
+/-- `x, y := …` after the call has delivered its two values. -/
+def declare2 (env : Env) (x y : String) (r : Res (Val × Val)) : Res SOut :=
+  match r with
+  | .ok (v, w) => .ok (.norm ((env.declare y w).declare x v))   -- x ≠ y in Go; the compiler allocates y's slot first
+  | .panic => .panic | .overflow => .overflow | .stuck => .stuck | .timeout => .timeout
 
 mutual
 
@@ -252,7 +260,7 @@ def callF : Nat → Prog → String → List Val → Res Val
     | some d =>
       if d.params.length != vs.length then .stuck else
       match exec fuel p { frames := [[]], args := d.params.zip vs } (.block d.body) with
-      | .ok (.ret (some v)) => if d.hasResult then .ok v else .stuck
+      | .ok (.ret [v]) => if d.nres == 1 then .ok v else .stuck
       | .ok _ => .stuck
       | .panic => .panic
       | .overflow => .overflow
@@ -268,9 +276,24 @@ def callS : Nat → Prog → String → List Val → Res Unit
     | some d =>
       if d.params.length != vs.length then .stuck else
       match exec fuel p { frames := [[]], args := d.params.zip vs } (.block d.body) with
-      | .ok (.ret (some _)) => if d.hasResult then .ok () else .stuck
-      | .ok (.ret none) => if d.hasResult then .stuck else .ok ()
-      | .ok (.norm _) => if d.hasResult then .stuck else .ok ()
+      | .ok (.ret vs) => if vs.length == d.nres then .ok () else .stuck
+      | .ok (.norm _) => if d.nres == 0 then .ok () else .stuck
+      | .ok _ => .stuck
+      | .panic => .panic
+      | .overflow => .overflow
+      | .stuck => .stuck
+      | .timeout => .timeout
+
+/-- call of a function that must deliver two values (`x, y := f(…)`). -/
+def callF2 : Nat → Prog → String → List Val → Res (Val × Val)
+  | 0, _, _, _ => .timeout
+  | fuel + 1, p, f, vs =>
+    match p.find f with
+    | none => .stuck
+    | some d =>
+      if d.params.length != vs.length then .stuck else
+      match exec fuel p { frames := [[]], args := d.params.zip vs } (.block d.body) with
+      | .ok (.ret [v, w]) => if d.nres == 2 then .ok (v, w) else .stuck
       | .ok _ => .stuck
       | .panic => .panic
       | .overflow => .overflow
@@ -377,10 +400,30 @@ def exec : Nat → Prog → Env → Stmt → Res SOut
     | .panicS e => match evalE fuel p env e with
       | .ok _ => .panic
       | .panic => .panic | .overflow => .overflow | .stuck => .stuck | .timeout => .timeout
-    | .ret none => .ok (.ret none)
+    | .ret none => .ok (.ret [])
     | .ret (some e) => match evalE fuel p env e with
-      | .ok v => .ok (.ret (some v))
+      | .ok v => .ok (.ret [v])
       | .panic => .panic | .overflow => .overflow | .stuck => .stuck | .timeout => .timeout
+    | .ret2 e1 e2 =>
+      -- Go: operands left to right
+      match evalE fuel p env e1 with
+      | .ok v => match evalE fuel p env e2 with
+        | .ok w => .ok (.ret [v, w])
+        | .panic => .panic | .overflow => .overflow | .stuck => .stuck | .timeout => .timeout
+      | .panic => .panic | .overflow => .overflow | .stuck => .stuck | .timeout => .timeout
+    | .define2 x y e =>
+      -- arguments left to right, the call, then both variables are declared (x first)
+      match e with
+      | .call0 f => declare2 env x y (callF2 fuel p f [])
+      | .call1 f a => match evalE fuel p env a with
+        | .ok va => declare2 env x y (callF2 fuel p f [va])
+        | .panic => .panic | .overflow => .overflow | .stuck => .stuck | .timeout => .timeout
+      | .call2 f a b => match evalE fuel p env a with
+        | .ok va => match evalE fuel p env b with
+          | .ok vb => declare2 env x y (callF2 fuel p f [va, vb])
+          | .panic => .panic | .overflow => .overflow | .stuck => .stuck | .timeout => .timeout
+        | .panic => .panic | .overflow => .overflow | .stuck => .stuck | .timeout => .timeout
+      | _ => .stuck
     | .brk => .ok (.brk none env)
     | .cont => .ok (.cont none env)
     | .block body => match exec fuel p env.push body with
@@ -492,11 +535,12 @@ def iter : Nat → Prog → Env → Option String → Option Expr → Stmt → S
 end
 
 /-- result of calling function `f` of program `p` on argument values `vs`, as the harness observes it. -/
-def runFunc (fuel : Nat) (p : Prog) (f : String) (vs : List Val) : Res (Option Val) :=
+def runFunc (fuel : Nat) (p : Prog) (f : String) (vs : List Val) : Res (List Val) :=
   match p.find f with
   | none => .stuck
   | some d =>
-    if d.hasResult then (callF fuel p f vs).bind (fun v => .ok (some v))
-    else (callS fuel p f vs).bind (fun _ => .ok none)
+    if d.nres == 1 then (callF fuel p f vs).bind (fun v => .ok [v])
+    else if d.nres == 2 then (callF2 fuel p f vs).bind (fun r => .ok [r.1, r.2])
+    else (callS fuel p f vs).bind (fun _ => .ok [])
 
 end NeoModel.MiniGo
